@@ -30,7 +30,7 @@ def unhex(s):
 class Gen:
     def __init__(self, rng, max_depth=3, big_tuples=True, arith=True, consts=True, families=("uniform",), arrays=False,
                  tuple_member_kinds=False, underscore_classes=False, more_ops=False, more_forms=False, defaults=False,
-                 pow_ops=True, log_ops=False):
+                 pow_ops=True, log_ops=False, numeric_names=False):
         # opt-in extensions (all off by default; with them off the random stream is unchanged):
         #   tuple_member_kinds  arithmetic priors and int constants as tuple members, int constants as kwargs
         #   underscore_classes  classes CE / LC (constructor-argument names containing "_")
@@ -39,6 +39,8 @@ class Gen:
         #   more_forms          Collection varargs / __setitem__ / raw nested lists, list-valued kwargs (L1), N3 nesting,
         #                       a whole TuplePrior passed as kwarg with members created out of index order
         #   defaults            omitted kwargs / tuple members / nested classes (config-default priors)
+        #   numeric_names       collections whose numeric item names differ from the item positions (coll_numeric_names)
+        self.numeric_names = numeric_names
         self.tuple_member_kinds = tuple_member_kinds
         self.underscore_classes = underscore_classes
         self.more_ops = more_ops
@@ -265,7 +267,78 @@ class Gen:
                 key = str(len(items)) if form in ("list", "append", "varargs") else "same"
                 items.append([key, {"t": "alias", "of": rng.choice(cands)}])
                 self.features.add("same-object-twice")
+        if self.numeric_names and rng.random() < 0.4:
+            return self.coll_numeric_names(items)
         return {"t": "coll", "form": form, "items": items}
+
+    def coll_numeric_names(self, items):
+        """opt-in (numeric_names): the components just generated, put into a Collection by a construction history after
+        which the NUMERIC item names ("0", "1", ...) need not coincide with the item positions: named items followed by
+        appended ones, items assigned by number out of order (c[1] = ..; c[0] = ..), a dict with digit keys out of order,
+        a list from which an earlier item was removed, appends interleaved with named / numbered assignments.  The
+        history is e["steps"] (op init / append / setint / setstr / attr, the resulting key, the item index or -1 for the
+        item removed at the end, e["removed"]); e["items"] is the resulting (key, component) list in __dict__ order.
+        No step overwrites an existing key."""
+        rng = self.rng
+        subs = [sub for _, sub in items]
+        while len(subs) < 2:
+            subs.append(self.model(0, rng.choice(["G2", "G3", "T2"])))
+        n = len(subs)
+        names = ["g", "h", "m", "one", "two", "lens", "src", "aux", "bulge", "disk"]
+        rng.shuffle(names)
+        variant = rng.choice(["named-then-append", "setitem-numbers", "dict-digits", "list-remove", "interleaved"])
+        if variant == "list-remove" and not all(sub["t"] in ("model", "copy", "alias") for sub in subs):
+            # Collection.remove compares the argument with every item by ==, which is only dependable between Models
+            # (a nested Collection raises TypeError, a direct prior is compared by its id with the model's id)
+            variant = "interleaved"
+        init = "none"
+        removed = None
+        if variant == "named-then-append":
+            init = rng.choice(["kwargs", "dict"])
+            k = rng.randint(1, n - 1)
+            steps = [{"op": "init", "key": names[j], "item": j} for j in range(k)]
+            steps += [{"op": "append", "key": str(j - k), "item": j} for j in range(k, n)]
+        elif variant in ("setitem-numbers", "dict-digits"):
+            keys = sorted(rng.sample(range(n + rng.choice([0, 0, 1, 2])), n))
+            while keys == sorted(keys):
+                rng.shuffle(keys)
+            if variant == "dict-digits":
+                init = "dict"
+                steps = [{"op": "init", "key": str(keys[j]), "item": j} for j in range(n)]
+            else:
+                steps = [{"op": rng.choice(["setint", "setstr"]), "key": str(keys[j]), "item": j} for j in range(n)]
+        elif variant == "list-remove":
+            # the removed component holds two priors of its own: no other item of this collection is equal to it
+            removed = {"t": "model", "cls": "G2", "kw": {"a": {"t": "prior", "ref": self.new_prior()},
+                                                          "b": {"t": "prior", "ref": self.new_prior()}}, "extra": []}
+            at = rng.randint(0, n - 1)
+            init = rng.choice(["list", "none"])
+            order = list(range(at)) + [-1] + list(range(at, n))
+            steps = [{"op": "init" if init == "list" else "append", "key": str(pos), "item": j} for pos, j in enumerate(order)]
+        else:
+            steps, used, number = [], set(), 0
+            for j in range(n):
+                op = rng.choice(["append", "append", "attr", "setint", "setstr"])
+                if op == "append" and str(number) in used:
+                    op = "attr"
+                if op == "append":
+                    key = str(number)
+                    number += 1
+                elif op == "attr":
+                    key = names[j]
+                else:
+                    key = str(rng.choice([x for x in range(n + 2) if str(x) not in used]))
+                used.add(key)
+                steps.append({"op": op, "key": key, "item": j})
+        out = {"t": "coll", "form": "steps", "init": init, "steps": steps,
+               "items": [[st["key"], subs[st["item"]]] for st in steps if st["item"] >= 0]}
+        if removed is not None:
+            out["removed"] = removed
+        self.features.add("numeric-names")
+        self.features.add("numeric-names:" + variant)
+        if any(k.isdigit() and int(k) != pos for pos, (k, _) in enumerate(out["items"])):
+            self.features.add("numeric-name!=position")
+        return out
 
     def program(self):
         depth = self.rng.randint(1, self.max_depth)
@@ -288,6 +361,8 @@ class Gen:
             if e["t"] == "model":
                 return dict(e, kw={k: ren(v) for k, v in e["kw"].items()}, extra=[[k, ren(v)] for k, v in e["extra"]])
             if e["t"] == "coll":
+                if "removed" in e:      # (numeric_names) the component removed again at the end of the history
+                    return dict(e, items=[[k, ren(v)] for k, v in e["items"]], removed=ren(e["removed"]))
                 return dict(e, items=[[k, ren(v)] for k, v in e["items"]])
             if e["t"] == "array":
                 return dict(e, elems=[ren(m) for m in e["elems"]])
